@@ -372,6 +372,8 @@ class FnEval:
                     return TOP
             return out
         if isinstance(e, ast.Call):
+            if self.overrides and norm(e) in self.overrides:
+                return self.overrides[norm(e)]
             return self._call(e, nid, env, oo)
         if isinstance(e, ast.NamedExpr):
             return ev(e.value)
